@@ -368,13 +368,85 @@ pub fn pfb_view(p: &PayloadFeedback, data: &[u8], pfx: &str) -> Rec {
 }
 
 // ---------------------------------------------------------------- typed parse results
-fn wrap<T>(res: Result<T, RtcpParseError>, view: impl Fn(&T) -> Rec, panics: &mut Vec<String>) -> Value {
+/// Touch the accessors of a parsed value in another order than the view functions do (last field first,
+/// iterators from their last element, FCI types in reverse), discarding the results.
+pub trait Scramble {
+    fn scramble(&self);
+}
+impl Scramble for SenderReport<'_> {
+    fn scramble(&self) {
+        let _ = self.report_blocks().last().map(|b| (b.delay_since_last_sender_report_timestamp(), b.ssrc()));
+        let _ = (self.n_reports(), self.octet_count(), self.packet_count(), self.rtp_timestamp(), self.ntp_timestamp(), self.padding(), self.ssrc());
+        let _ = (self.length(), self.count(), self.type_(), self.version());
+    }
+}
+impl Scramble for ReceiverReport<'_> {
+    fn scramble(&self) {
+        let _ = self.report_blocks().last().map(|b| (b.interarrival_jitter(), b.cumulative_lost(), b.fraction_lost()));
+        let _ = (self.n_reports(), self.padding(), self.ssrc(), self.length(), self.count());
+    }
+}
+impl Scramble for Sdes<'_> {
+    fn scramble(&self) {
+        let chunks: Vec<_> = self.chunks().collect();
+        for ch in chunks.iter().rev() {
+            let items: Vec<_> = ch.items().collect();
+            for it in items.iter().rev() {
+                let _ = (it.get_value_string().is_ok(), it.value().len(), it.length(), it.type_());
+            }
+            let _ = (ch.length(), ch.ssrc());
+        }
+        let _ = (self.padding(), self.length(), self.count());
+    }
+}
+impl Scramble for Bye<'_> {
+    fn scramble(&self) {
+        let _ = self.get_reason_string();
+        let _ = self.reason();
+        let _ = self.ssrcs().last();
+        let _ = (self.padding(), self.length(), self.count());
+    }
+}
+impl Scramble for App<'_> {
+    fn scramble(&self) {
+        let _ = (self.data().len(), self.get_name_string().is_ok(), self.name(), self.ssrc(), self.padding(), self.subtype(), self.length());
+    }
+}
+impl Scramble for TransportFeedback<'_> {
+    fn scramble(&self) {
+        let _ = self.parse_fci::<Fir>().map(|f| f.entries().count());
+        let _ = self.parse_fci::<Rpsi>().map(|f| f.bit_string().1);
+        let _ = self.parse_fci::<Sli>().map(|f| f.lost_macroblocks().count());
+        let _ = self.parse_fci::<Pli>().is_ok();
+        let _ = self.parse_fci::<Nack>().map(|f| f.entries().last());
+        let _ = (self.media_ssrc(), self.sender_ssrc(), self.padding(), self.count(), self.length());
+    }
+}
+impl Scramble for PayloadFeedback<'_> {
+    fn scramble(&self) {
+        let _ = self.parse_fci::<Fir>().map(|f| f.entries().last().map(|e| (e.sequence(), e.ssrc())));
+        let _ = self.parse_fci::<Rpsi>().map(|f| (f.bit_string().1, f.payload_type()));
+        let _ = self.parse_fci::<Sli>().map(|f| f.lost_macroblocks().last().is_some());
+        let _ = self.parse_fci::<Pli>().is_ok();
+        let _ = self.parse_fci::<Nack>().map(|f| f.entries().count());
+        let _ = (self.media_ssrc(), self.sender_ssrc(), self.padding(), self.count(), self.length());
+    }
+}
+impl Scramble for Unknown<'_> {
+    fn scramble(&self) {
+        let _ = (self.data().len(), self.length(), self.count(), self.type_(), self.version());
+    }
+}
+
+fn wrap<T: Scramble>(res: Result<T, RtcpParseError>, view: impl Fn(&T) -> Rec, panics: &mut Vec<String>) -> Value {
     match res {
         Err(e) => perr(&e),
         Ok(v) => {
             let (mut view_, p) = view(&v).done();
             panics.extend(p);
-            // every accessor once more on the same value: a view must not depend on having been read before
+            // every accessor once more on the same value, after its accessors have been touched in another
+            // order: a view must not depend on what was read before, nor on the order of reading
+            let _ = guarded(|| v.scramble());
             let (again, _) = view(&v).done();
             let same = again == view_;
             view_["again"] = json!(same);
@@ -399,6 +471,12 @@ pub fn typed(kind: &str, data: &[u8], pfx: &str, panics: &mut Vec<String>) -> Va
                     inner.as_object_mut().map(|o| o.remove("again"));
                     mine.as_object_mut().map(|o| o.remove("again"));
                     v["as_packet"] = json!({"variant": pv["variant"], "same": inner == mine});
+                    // a FRESH parse of the same bytes whose accessors are first touched in another order
+                    let fresh = <$T>::parse(data).unwrap();
+                    let _ = guarded(|| fresh.scramble());
+                    let (mut fv, _) = $view(&fresh, data, pfx).done();
+                    fv.as_object_mut().map(|o| o.remove("again"));
+                    v["fresh_same"] = json!(fv == mine);
                 }
                 v
             }};
@@ -429,7 +507,7 @@ pub fn typed(kind: &str, data: &[u8], pfx: &str, panics: &mut Vec<String>) -> Va
 
 pub const TYPED: [&str; 7] = ["sr", "rr", "sdes", "bye", "app", "tfb", "pfb"];
 
-fn conv_res<'a, T>(
+fn conv_res<'a, T: Scramble>(
     res: Result<T, RtcpParseError>,
     view: impl Fn(&T) -> Rec,
     panics: &mut Vec<String>,
@@ -532,6 +610,16 @@ pub fn packet_view(p: &Packet, data: &[u8], pfx: &str) -> Rec {
         Packet::Unknown(x) => unknown_view(x, data, &ipfx),
     };
     let mut inner = mk_inner();
+    let _ = guarded(|| match p {
+        Packet::App(x) => x.scramble(),
+        Packet::Bye(x) => x.scramble(),
+        Packet::Rr(x) => x.scramble(),
+        Packet::Sdes(x) => x.scramble(),
+        Packet::Sr(x) => x.scramble(),
+        Packet::TransportFeedback(x) => x.scramble(),
+        Packet::PayloadFeedback(x) => x.scramble(),
+        Packet::Unknown(x) => x.scramble(),
+    });
     let same = mk_inner().m == inner.m;
     inner.set("again", json!(same));
     r.sub("inner", inner);
